@@ -27,7 +27,7 @@ REQUIRED = ['backends/libwayland_debug_output/parse.py:Parser.parse_all', 'backe
 HELPERS = os.path.join(os.path.dirname(os.path.dirname(os.path.abspath(__file__))), 'helpers')
 MARKER = 'CHILD-STDOUT-MARKER-7f3a\n'
 WORDS = ['prog', 'arg1', '-f', 'x', '-r', '--run', '-g', '--gdb', '--', '', 'a b', '-Cr', '-l', 'file', '"q"', 'back\\n', "'s'", 'żółć', '-p', '--supress', '-b', '*',
-         '~', '~/x', '~root', '~/.config/app.conf', '$HOME', '${HOME}', '%s', '`id`', '$(id)', 'a;b', 'a|b', '>x', '*.log', '?', '[a]', '{a,b}', '\\', 'a\\ b', '#c', '!x', '&']
+         '~', '~/x', '~root', '~/.config/app.conf', '$HOME', '${HOME}', '%s', '`id`', '$(id)', 'a;b', 'a|b', '>x', '*.log', '?', '[a]', '{a,b}', '\\', 'a\\ b', '#c', '!x', '&', 'Cafe\u0301', '\u2126', '\u1112\u1161\u11ab', '\ufb01le', '\U0001F3B5 x']
 
 
 def plan(tier, seed):
